@@ -908,6 +908,10 @@ def rule_pre(env, shared):
                 if lty.get("k") != "ptr":
                     continue
                 key = "PRE|%s|raw-write" % env.fname(b)
+                if st["loc"].get("expn") in ("macro:std::vec", "macro:alloc::vec"):
+                    # the body of std's `vec![..]` (box the array, write it, turn the box into a Vec): std's own code
+                    out.append(Ob("PRE", key + "|vec!", "ok", b.file_line(st["loc"]), "inside the expansion of std's vec! macro"))
+                    continue
                 ptr = ev.local(ctxb, pl["l"])
                 role, adt = R.classify(ptr)
                 if role in ("store", "cell") or adt is not None:
